@@ -576,3 +576,60 @@ Section Partial.
     rewrite last_cons_default in G. rewrite last_map in Hr. lia.
   Qed.
 End Partial.
+
+(* ------------------------------------------------------------------ the insert lock: decisions on the state under the lock *)
+Lemma produce_all_chain own : forall st, fst (produce_all own st) = fst st ++ map d_mom own.
+Proof.
+  unfold produce_all. induction own as [|d r IH]; intros st; cbn [fold_left map].
+  - rewrite app_nil_r. reflexivity.
+  - rewrite IH. unfold produce. cbn [fst]. rewrite <- app_assoc. reflexivity.
+Qed.
+
+(* whoever was served first on the lock: own momentums (those of the state under the lock, the other writer's included)
+   are abandoned only for a batch that links at most 30 below the frontier UNDER THE LOCK and ends above it *)
+Theorem decides_under_lock bvalid mvalid fixed clears (w : nstate -> nstate) st ds st1 r c' p' :
+  insert_chain_locked bvalid mvalid fixed clears w st ds = (st1, (r, (c', p'))) ->
+  st1 = w st /\
+  (~ is_prefix (fst st1) c' ->
+   exists start head rest' fr target,
+     skip_known (fst st1) ds 0 = (start, head :: rest') /\ frontier (fst st1) = Some fr /\
+     by_height (fst st1) (u64 (s_height (d_mom head) - 1)) = Some target /\ prev_is (d_mom head) target = true /\
+     u64 (s_height fr - s_height target) <= 30 /\
+     s_height fr < s_height (d_mom (last (head :: rest') head))).
+Proof.
+  unfold insert_chain_locked. intros H. inversion H as [[E1 E2]]. split; [reflexivity|].
+  intros NP. eapply leave_implies; eauto.
+Qed.
+
+(* the own pillar served first: the delivered chain has to end above the momentum the pillar has just produced *)
+Theorem longer_than_own_production bvalid mvalid fixed clears c p own d ds st1 r c' p' :
+  insert_chain_locked bvalid mvalid fixed clears (produce_all (own ++ [d])) (c, p) ds = (st1, (r, (c', p'))) ->
+  ~ is_prefix (c ++ map d_mom (own ++ [d])) c' ->
+  exists head rest', s_height (d_mom d) < s_height (d_mom (last (head :: rest') head)) /\
+                     exists start, skip_known (c ++ map d_mom (own ++ [d])) ds 0 = (start, head :: rest').
+Proof.
+  intros H NP. destruct (decides_under_lock _ _ _ _ _ _ _ _ _ _ _ H) as [E L]. subst st1.
+  rewrite produce_all_chain in L. cbn [fst] in L.
+  destruct (L NP) as (start & head & rest' & fr & target & SK & FR & _ & _ & _ & G).
+  rewrite map_app in FR. cbn [map] in FR. rewrite app_assoc, frontier_app in FR. inversion FR; subst fr.
+  exists head, rest'. split; [exact G|]. exists start. exact SK.
+Qed.
+
+(* reading before locking: the own pillar produces momentum 6 while the batch waits; the side chain 3'..6' from momentum 2
+   is as long as the own chain now, and the node leaves its chain for it all the same *)
+Definition ex_own : list dmom := [mkD (mkS 6 5 6) []].
+Theorem stale_snapshot_refuted :
+  exists bvalid mvalid c own ds c' p',
+    wf_chain c /\ own <> [] /\
+    insert_chain_stale bvalid mvalid true c (fst (produce_all own (c, []))) [] ds = (ICOk, (c', p')) /\
+    ~ is_prefix (fst (produce_all own (c, []))) c' /\
+    length c' = length (fst (produce_all own (c, []))).
+Proof.
+  exists all_b, all_m, ex_local, ex_own, ex_side, ex_adopted, [].
+  split; [exact ex_local_wf|]. split; [discriminate|]. split; [vm_compute; reflexivity|]. split; [|reflexivity].
+  intros (rest & E). vm_compute in E. discriminate.
+Qed.
+Example locked_example :
+  insert_chain_locked all_b all_m true true (produce_all ex_own) (ex_local, []) ex_side =
+  ((ex_local ++ [mkS 6 5 6], []), (ICErr 0 ENotLonger, (ex_local ++ [mkS 6 5 6], []))).
+Proof. vm_compute. reflexivity. Qed.
